@@ -24,6 +24,13 @@ HARNESS = os.path.join(VERIF, "harness")
 ALLOWED_AXIOMS = {"propext", "Classical.choice", "Quot.sound"}
 BANNED = re.compile(r"\b(sorry|admit|native_decide|bv_decide|implemented_by|unsafe)\b|^axiom\s|maxHeartbeats\s+0", re.M)
 
+def repo_path():
+    """the grmtools tree the harness is built against: the path dependency of harness/Cargo.toml"""
+    m = re.search(r'cfgrammar\s*=\s*\{\s*path\s*=\s*"([^"]+)/cfgrammar"', open(os.path.join(HARNESS, "Cargo.toml")).read())
+    return m.group(1) if m else "/repo"
+
+
+REPO = repo_path()
 sys.path.insert(0, os.path.join(VERIF, "tools"))
 from props import PROPS  # noqa: E402
 
@@ -98,7 +105,7 @@ def lean_build(prop, cfg, log):
 
 
 def harness_build(log, cfg):
-    shutil.copyfile("/repo/Cargo.lock", os.path.join(HARNESS, "Cargo.lock"))
+    shutil.copyfile(os.path.join(REPO, "Cargo.lock"), os.path.join(HARNESS, "Cargo.lock"))
     env = {}
     if cfg.get("hooks"):
         env["RUSTFLAGS"] = "--cfg grmtools_verif"
